@@ -42,6 +42,12 @@ Oracle
  frozen: every attempt raises EdzedInvalidState and the structure snapshot (block list in
  order, inputs, iconnections, oconnections, storage object) is identical afterwards.
 
+Addition after the seeded-change round: block names are drawn from a pool with awkward ones
+(beginning with the characters of '_not_', prefixes/suffixes of each other: 'temp'/'emp',
+'out'/'ut', 'on', 'not_x', 'tnt', ...) for a random part of the blocks. Caught: shortcut
+resolved with lstrip('_not_') instead of removeprefix (seeded C15-s2). Sources may carry an
+on_output EventCond event that fails with the non-fatal EdzedUnknownEvent for one edge.
+
 Findings on the pinned tree (genuine, own signatures):
  * C15/names-unresolved/after-explicit-finalize and
    C15/start-failed/shortcut-in-filter-after-explicit-finalize (one root cause): only
@@ -135,7 +141,8 @@ REACH_EXPECTED = ['explicit_finalize', 'shortcut_shared', 'shortcut_in_filter_on
                   'invalid_detected_at_explicit_finalize', 'start_failed_partial_start',
                   'start_failed_nothing_started', 'mod_after_explicit_finalize',
                   'mod_first_step', 'mod_during_async_init', 'mod_running',
-                  'mod_after_failed_start', 'mod_after_stop', 'connect_of_unconnected_block']
+                  'mod_after_failed_start', 'mod_after_stop', 'connect_of_unconnected_block',
+                  'shortcut_to_name_beginning_like_not', 'nonfatal_unknown_event_from_output_event']
 ASSUMPTIONS = [
     "which of 'construction', 'explicit finalize()' or 'start' reports an invalid reference is "
     "left free (the property says 'construction or the start')",
@@ -254,8 +261,12 @@ def gen(rng, tier, index=0):
             at = None       # needs the original block
         inv = {'cls': invalid[0], 'variant': invalid[1], 'at': at,
                'a': rng.choice(names), 'b': rng.choice(names), 'c': rng.choice(cbn)}
-    return {'knobs': knobs, 'spec': spec, 'ops': ops, 'pre': pre, 'explicit_finalize': explicit,
+    plan = {'knobs': knobs, 'spec': spec, 'ops': ops, 'pre': pre, 'explicit_finalize': explicit,
             'storage': rng.random() < 0.5, 'invalid': inv, 'mods': mods}
+    # names from a pool with awkward ones (beginning with the characters of '_not_', prefixes
+    # and suffixes of each other) for a part of the blocks
+    circlib.rename_plan(rng, plan, prob=rng.choice([0.0, 0.4, 0.8, 1.0]))
+    return plan
 
 
 # --------------------------------------------------------------------------- invalid constructions
@@ -882,6 +893,8 @@ def execute(plan, trace=False):
                                   else 'reach:add_output_by_name')
                     if flt[-2] == '!' and flt[-1] not in connect_nots:
                         filter_only = True
+                    if flt[-2] == '!' and flt[-1][:1] in ('n', 'o', 't'):
+                        run.fired('reach:shortcut_to_name_beginning_like_not')
         if filter_only:
             run.fired('reach:shortcut_in_filter_only')
 
@@ -983,7 +996,11 @@ def execute(plan, trace=False):
                 await circuit.wait_init()
             except edzed.EdzedInvalidState as err:
                 cause = circuit.error
-                if valid:
+                if valid and sim.is_instability(cause):
+                    verdict = sim.judge_abort(cause)
+                    if verdict:
+                        run.violate(verdict[0], 'start-up burst: ' + verdict[1])
+                elif valid:
                     sig = f"C15/start-failed/{type(cause).__name__}"
                     if explicit and filter_only and isinstance(cause, edzed.EdzedInvalidState):
                         sig = 'C15/start-failed/shortcut-in-filter-after-explicit-finalize'
@@ -1041,8 +1058,9 @@ def execute(plan, trace=False):
                 err = exc
             run.log('stopped', cerr(err))
             if err is not None and valid:
-                run.violate(f"C15/simulation-aborted/{type(err).__name__}",
-                            f"the simulation of a valid circuit ended with {cerr(err)}")
+                verdict = sim.judge_abort(err)
+                if verdict:
+                    run.violate(*verdict)
             if valid:
                 chk.check_structure('stopped', True)
             do_mods('stopped')
